@@ -491,6 +491,11 @@ def oracle(R: Run, plan, info, traces, udp):
             if info["gw_has_channel"] is False:
                 R.violate("C25.connected-means-established", "state=CONNECTED&&no_channel",
                           "CONNECTED at quiescence but the gateway holds no channel for this client")
+            elif info["probe"] not in (None, "ok") and any(o["op"] == "send_cancel" for o in plan["ops"]):
+                # a send abandoned by its caller after its frame went out unacknowledged has used up its sequence counter
+                # (the gateway may have got it); when it had not, the next frame is out of sequence and the tunnel gives up
+                # on it (failed twice -> reconnect / shutdown): the tunnel was established all the same - unjudged
+                R.probes["probe_failed_after_a_send_abandoned_by_its_caller(unjudged)"] += 1
             elif info["probe"] not in (None, "ok"):
                 R.violate("C25.connected-means-established", "state=CONNECTED&&probe-failed",
                           f"CONNECTED at quiescence but a probe telegram failed: {info['probe']}")
